@@ -734,7 +734,7 @@ func (ex *Exec) jump(st *State, to *ssa.BasicBlock) {
 		// response obligations triggered inside this iteration must be met inside it
 		if len(st.Frames) > 0 && ex.entryCt != nil {
 			fr0 := st.Frames[0]
-			ex.checkRespondFrom(st, fr0, ex.entryCt, ex.paramNames(fr0.Fn, fr0.Args, nil, false), st.CutEvents, true)
+			ex.checkRespondFrom(st, fr0, ex.entryCt, ex.freeVarNames(st, fr0, ex.paramNames(fr0.Fn, fr0.Args, nil, false)), st.CutEvents, true)
 		}
 		st.Dead = true
 		return
